@@ -106,12 +106,12 @@ def gen_units(spec, lowered, work):
     units = {}
     sdir = os.path.join(VERIF, 'specs', spec.ID)
     for uname, tmpl in spec.UNITS.items():
-        text = open(os.path.join(sdir, tmpl)).read()
+        text = tmpl(lowered) if callable(tmpl) else open(os.path.join(sdir, tmpl)).read()
 
         def sub(m):
             n = m.group(1)
             if n not in lowered:
-                raise X.ExtractionError('template %s references unknown target %s' % (tmpl, n))
+                raise X.ExtractionError('template %s references unknown target %s' % (getattr(tmpl, '__name__', tmpl), n))
             ex = lowered[n]['ex']
             return '/* lowered from %s */ %s' % (ex.where(), lowered[n]['body'])
         text = re.sub(r'/\*@BODY (\w+)@\*/', sub, text)
@@ -396,9 +396,29 @@ def main():
     seed = int(os.environ.get('VERIF_SEED', '1'))
     t0 = time.time()
     spec = load_spec(pid)
-    work = os.path.join(os.environ.get('VERIF_WORK', os.path.join(VERIF, '.work')), pid)
+    # one work directory per run (two concurrent runs of the same check must not disturb each other);
+    # `.work/<ID>` is a symlink to the latest one, older ones are removed after 30 minutes
+    wroot = os.environ.get('VERIF_WORK', os.path.join(VERIF, '.work'))
+    os.makedirs(wroot, exist_ok=True)
+    for dname in os.listdir(wroot):
+        dp = os.path.join(wroot, dname)
+        try:
+            if dname.startswith(pid + '.') and time.time() - os.path.getmtime(dp) > 1800:
+                shutil.rmtree(dp, ignore_errors=True)
+        except OSError:
+            pass
+    work = os.path.join(wroot, '%s.%d' % (pid, os.getpid()))
     shutil.rmtree(work, ignore_errors=True)
     os.makedirs(work, exist_ok=True)
+    link = os.path.join(wroot, pid)
+    try:
+        if os.path.islink(link) or os.path.isfile(link):
+            os.unlink(link)
+        elif os.path.isdir(link):
+            shutil.rmtree(link, ignore_errors=True)
+        os.symlink(work, link)
+    except OSError:
+        pass
     if not replay:
         shutil.rmtree(os.path.join(VERIF, 'replays', pid), ignore_errors=True)
 
@@ -544,6 +564,11 @@ def main():
         path = write_replay(pid, '%s/%s' % (r.proof.name, n0), data)
         violations.append((oname, path, '' if reproduced else 'no-failing-input-found'))
     for name, nr in natives.items():
+        for cls, js in nr.get('known', []):
+            key = '%s/native/%s/%s' % (pid, name, cls)
+            hit = [x for x in kf if re.search(x[0], key)]
+            if hit:
+                known_hit.append(hit[0])
         if nr['status'] == 'cex':
             oname = '%s/native/%s' % (pid, name)
             key = oname + '/' + nr.get('cex_class', '')
@@ -642,8 +667,17 @@ def run_native(nat, spec, units, work, tier, seed):
     a = nat.args_thorough if (tier == 'thorough' and nat.args_thorough) else nat.args_quick
     env = dict(os.environ)
     env['VERIF_SEED'] = str(seed)
+    # classes of native counterexamples listed as known findings: the native program reports them as `KNOWN <class> {json}`
+    # (once) and keeps going, so that a different violation is still found
+    kn = []
+    for k, _ in known_findings(spec.ID):
+        m = re.search(r'native/%s/(\w+)' % re.escape(nat.name), k)
+        if m:
+            kn.append(m.group(1))
+    env['VERIF_KNOWN'] = ','.join(kn)
     rc, out, secs = sh([exe] + [str(x) for x in a], timeout=nat.timeout, env=env)
     res = dict(exe=exe, log=out[-4000:], secs=secs)
+    res['known'] = re.findall(r'^KNOWN (\w+)\s*(\{.*\})$', out, re.M)
     m = re.search(r'(?:^|\x1b\[0m)OK (\d+)(.*)$', out, re.M)
     if rc == 0 and m:
         res.update(status='ok', cases=int(m.group(1)), summary=('%s cases%s' % (m.group(1), m.group(2))))
